@@ -306,13 +306,14 @@ class Row:
 # ------------------------------------------------------------------------------------------------ interpreter
 class FDI:
     def __init__(self, facts, effects=(), models=None, inline_depth=6, loop_k=2, max_rows=20000, max_steps=4000,
-                 no_inline=(), opaque_types=(), pure_ext=True):
+                 no_inline=(), opaque_types=(), pure_ext=True, no_models=()):
         self.f = facts
         self.effects = [(re.compile(r) if isinstance(r, str) else r) for r in effects]
         self.models = dict(DEFAULT_MODELS)
         if models:
             self.models.update(models)
-        self._model_res = [(re.compile(k), v) for k, v in self.models.items()]
+        self._model_res = [(re.compile(k), v) for k, v in self.models.items() if v is not None]
+        self.no_models = [re.compile(r) for r in no_models]     # callees a rule wants as opaque atoms / effects although a default model exists
         self.inline_depth = inline_depth
         self.loop_k = loop_k
         self.max_rows = max_rows
@@ -1047,7 +1048,7 @@ class FDI:
                 break
         # models
         for r, m in self._model_res:
-            if r.search(name):
+            if r.search(name) and not any(x.search(name) for x in self.no_models):
                 out = m(self, st, fr, t, args, name)
                 if out is NotImplemented:
                     continue
@@ -1081,9 +1082,10 @@ class FDI:
         return self.ret(st, fr, t, Sym(f"{name}({','.join(self.describe(st, a) for a in args)})", t['dest_ty'],
                                        ('call', name, tuple(self.xof(st, a) for a in args))))
 
-    def extern_value(self, st, name, args, dest_ty, line=None, fn=None):
-        """result of a call that is not interpreted, issued by a model: effect entry if designated, atom otherwise"""
-        for r in self.effects:
+    def extern_value(self, st, name, args, dest_ty, line=None, fn=None, unique=False):
+        """result of a call that is not interpreted, issued by a model: effect entry if designated (or `unique`: the
+        call is not a pure function of its arguments, e.g. Iterator::next), atom otherwise"""
+        for r in list(self.effects) + ([re.compile('.')] if unique else []):
             if r.search(name):
                 st.effects.append((name, [self.describe(st, a) for a in args], {'line': line, 'fn': fn, 'x': [self.xof(st, a) for a in args],
                                                                                 'n': len(st.effects) + 1, 'ci': len(st.cond)}))
